@@ -338,6 +338,12 @@ inductive Op where
   | collInst
   | collUpd (take : Option Nat)
   | advance (n : Nat)
+  /-- a contract's `migrate` entry point (any contract, any stored version, by the wasm admin or through its
+      factory): refused or accepted, it rewrites no configuration — on the current storage layout every
+      handler either stops at the version check, fails to parse an older layout, or only stamps the new
+      version (`contract.rs::migrate` of the six contracts; older-layout migrations are exercised by the
+      toggles engine) -/
+  | migrate
 deriving Repr
 
 /-- replace the `i`-th element by the result of `f` (errors when out of range or `f` fails) -/
@@ -417,6 +423,7 @@ def step (c : Cfg) : Op → Res Cfg
       | .err => .err
       | .panic => .panic
   | .advance n => .ok { c with height := c.height + n }
+  | .migrate => .ok c
 
 /-- run a history of write operations; a rejected one leaves every configuration as it was -/
 def reach (c : Cfg) : List Op → Cfg
